@@ -1,5 +1,134 @@
-//! (stub)
+//! C06 — normalization collapses runs to three, idempotently, on every route.
+
 use crate::common::*;
-use serde_json::Value;
-pub fn replay(_c: &Value) -> Result<(), String> { Err("not implemented".into()) }
-pub fn run(_ctx: &Ctx) -> Report { Report::new("model_checking") }
+use crate::corpus;
+use crate::hashobj::*;
+use refmodel::text as rt;
+use serde_json::{json, Value};
+use ssdeep::{DualFuzzyHash, FuzzyHash, LongDualFuzzyHash, LongFuzzyHash, LongRawFuzzyHash, RawFuzzyHash};
+
+macro_rules! routes {
+    ($name:ident, $raw:ty, $norm:ty, $dual:ty) => {
+        fn $name(log: u8, bh1: &[u8], bh2: &[u8]) -> Result<bool, String> {
+            let raw: $raw = guarded(|| <$raw>::new_from_internals_near_raw(log, bh1, bh2))?;
+            let (n1, n2) = (refmodel::normalize(bh1), refmodel::normalize(bh2));
+            let changed = n1 != bh1 || n2 != bh2;
+            let exp: $norm = guarded(|| <$norm>::new_from_internals_near_raw(log, &n1, &n2))?;
+            if !exp.ref_valid() {
+                return Err("reference object invalid (machinery)".into());
+            }
+            let same = |got: &$norm, route: &str| -> Result<(), String> {
+                if !got.valid() || !got.ref_valid() {
+                    return Err(format!("{}: result fails the validity check", route));
+                }
+                if got != &exp || !got.full_eq(&exp) {
+                    return Err(format!("{}: got {} expected {}", route, got, exp));
+                }
+                if got.log() != log || got.bh1() != &n1[..] || got.bh2() != &n2[..] {
+                    return Err(format!("{}: content differs from run collapsing", route));
+                }
+                Ok(())
+            };
+            // route 1: normalize()
+            same(&guarded(|| raw.normalize())?, "normalize()")?;
+            // route 2: normalize_in_place() on the raw type (stays raw-typed)
+            let mut r2 = raw;
+            guarded(|| r2.normalize_in_place())?;
+            let exp_raw: $raw = <$raw>::new_from_internals_near_raw(log, &n1, &n2);
+            if !r2.valid() || !r2.ref_valid() || r2 != exp_raw || !r2.full_eq(&exp_raw) {
+                return Err(format!("normalize_in_place(): got {} expected {}", r2, exp_raw));
+            }
+            // route 3: clone_normalized()
+            let r3 = guarded(|| raw.clone_normalized())?;
+            if !r3.valid() || r3 != exp_raw || !r3.full_eq(&exp_raw) {
+                return Err(format!("clone_normalized(): got {} expected {}", r3, exp_raw));
+            }
+            // route 4: From / Into
+            same(&guarded(|| <$norm>::from(raw))?, "From<raw>")?;
+            let via_into: $norm = guarded(|| raw.into())?;
+            same(&via_into, "Into")?;
+            // route 5: from_raw_form
+            same(&guarded(|| <$norm>::from_raw_form(&raw))?, "from_raw_form")?;
+            // route 6: parsing the raw text directly into the normalising type
+            let text = rt::format(log, bh1, bh2);
+            if !crate::c04::STRICT {
+                let parsed = guarded(|| text.parse::<$norm>())?.map_err(|e| format!("parse::<norm>({}): {:?}", text, e))?;
+                same(&parsed, "str::parse::<normalising type>")?;
+            }
+            // route 7 / 8: normalized part of a dual hash (from object, from text)
+            let d = guarded(|| <$dual>::from_raw_form(&raw))?;
+            same(d.as_normalized(), "dual.from_raw_form().as_normalized()")?;
+            same(&d.to_normalized(), "dual.to_normalized()")?;
+            let dp = guarded(|| text.parse::<$dual>())?.map_err(|e| format!("parse::<dual>({}): {:?}", text, e))?;
+            same(dp.as_normalized(), "dual parsed from text .as_normalized()")?;
+            // idempotence
+            let twice = guarded(|| exp.normalize())?;
+            same(&twice, "normalize twice")?;
+            let mut e2 = exp;
+            guarded(|| e2.normalize_in_place())?;
+            same(&e2, "normalize_in_place on normalized")?;
+            same(&guarded(|| exp.clone_normalized())?, "clone_normalized on normalized")?;
+            // is_normalized
+            if guarded(|| raw.is_normalized())? != !changed {
+                return Err(format!("raw.is_normalized() = {} but normalization {} it", !changed == false, if changed { "changes" } else { "keeps" }));
+            }
+            if !guarded(|| exp.is_normalized())? || !guarded(|| r2.is_normalized())? {
+                return Err("is_normalized() false on a normalized hash".into());
+            }
+            if d.is_normalized() != !changed {
+                return Err("dual.is_normalized() disagrees with the raw hash".into());
+            }
+            Ok(changed)
+        }
+    };
+}
+routes!(routes_short, RawFuzzyHash, FuzzyHash, DualFuzzyHash);
+routes!(routes_long, LongRawFuzzyHash, LongFuzzyHash, LongDualFuzzyHash);
+
+pub fn replay(c: &Value) -> Result<(), String> {
+    let log = c["log"].as_u64().ok_or("log")? as u8;
+    let bh1 = unhex(c["bh1"].as_str().ok_or("bh1")?);
+    let bh2 = unhex(c["bh2"].as_str().ok_or("bh2")?);
+    if c["long"].as_bool() == Some(true) {
+        routes_long(log, &bh1, &bh2).map(|_| ())
+    } else {
+        routes_short(log, &bh1, &bh2).map(|_| ())
+    }
+}
+
+pub fn run(ctx: &Ctx) -> Report {
+    let mut rep = Report::new("model_checking");
+    let thorough = ctx.tier == Tier::Thorough;
+    for long in [false, true] {
+        let cap2 = if long { 64 } else { 32 };
+        let corp = corpus::hash_corpus(cap2, thorough);
+        let shards = 128;
+        let per = (corp.len() + shards - 1) / shards;
+        let acc = par_shards(shards, |s, acc| {
+            for i in (s * per)..((s + 1) * per).min(corp.len()) {
+                let (log, a, b) = &corp[i];
+                acc.evaluations += 1;
+                acc.nontrivial += 1;
+                let r = if long { routes_long(*log, a, b) } else { routes_short(*log, a, b) };
+                match r {
+                    Ok(changed) => acc.bump(if changed { "normalization-changes-it" } else { "already-normalized" }),
+                    Err(e) => acc.violation(
+                        format!("{} raw={}", if long { "long" } else { "short" }, rt::format(*log, a, b)),
+                        e,
+                        json!({"long": long, "log": log, "bh1": hex(a), "bh2": hex(b), "raw_text": rt::format(*log, a, b)}),
+                    ),
+                }
+                if i == corp.len() / 2 {
+                    acc.sample(json!({"long": long, "raw_text": rt::format(*log, a, b)}));
+                }
+            }
+        });
+        acc.into_report(&mut rep, if long { "routes_long_types" } else { "routes_short_types" });
+    }
+    rep.set("exhaustive", true);
+    rep.set(
+        "rule",
+        "every raw hash of the corpus HASH (runs of every length 1..64 at every position, adjacent runs of different symbols, runs touching both ends, capacity lengths, all strings <=5 over {A,B,/}) is normalised through every route: normalize(), normalize_in_place(), clone_normalized(), From/Into, from_raw_form, str::parse into the normalising type, the normalised part of a dual hash built from the object and parsed from the text; each result must be valid and full_eq the object built from the reference run collapsing; idempotence; is_normalized <=> unchanged.  Cases are distinct raw hashes; all non-trivial.",
+    );
+    rep
+}
